@@ -197,7 +197,14 @@ pub fn check(seed: u64, case: &Kv, rep: &mut Report) {
 
 pub fn cases(ctx: &Ctx) -> Vec<Kv> {
     let max_depth = if ctx.tier.thorough() { 4 } else { 3 };
-    let nets = base_nets(max_depth);
+    let mut nets = base_nets(max_depth);
+    if max_depth < 4 {
+        // chained connections only reach a parameter gradient when the first source is >= 1: depth 4 is the minimum
+        let d = L::Dense { n: 4, act: Act::Linear, bias: true, drop: None };
+        let r = L::Dense { n: 4, act: Act::Relu, bias: false, drop: None };
+        nets.push(Net::new(Dims::Flat(4), vec![d.clone(), r.clone(), d.clone(), d.clone()]));
+        nets.push(Net::new(Dims::Flat(4), vec![r, d.clone(), d.clone(), d]));
+    }
     let mut out = Vec::new();
     for net in &nets {
         let n = net.layers.len();
